@@ -441,3 +441,17 @@ package collect
 //@   loop 1 invariant closedN(i.done) == 1 && closedN(i.tracesToSend) == 0 && (forall k int :: 0 <= k && k < iter ==> closedN(i.workers[k].incoming) == 1 && closedN(i.workers[k].fromPeer) == 1) && (forall k int :: iter <= k && k < len(i.workers) ==> closedN(i.workers[k].incoming) == 0 && closedN(i.workers[k].fromPeer) == 0)
 //@   loop 2 invariant closedN(i.done) == 1 && closedN(i.tracesToSend) == 0 && (forall k int :: 0 <= k && k < len(i.workers) ==> closedN(i.workers[k].incoming) == 1 && closedN(i.workers[k].fromPeer) == 1)
 //@   modifies all(closedN), unregN(i.Health)
+
+// ---- C12 (reload): the shared registry is emptied BEFORE any worker is told to drop its own samplers. In the
+// other order a worker that handles the signal at once and creates a sampler in between takes a shared dynsampler
+// out of the old registry, which is then stopped and dropped: that worker keeps an orphan until the next reload
+// while the others share a new one.
+//@ assume collect.StressReliever.UpdateFromConfig
+//@ final collect.InMemCollector.SamplerFactory
+//@ contract collect.(*InMemCollector).reloadConfigs props C12 havocheap noinv
+//@   assert only none
+//@   requires i != nil && i.SamplerFactory != nil && i.StressRelief != nil
+//@   let f = i.SamplerFactory
+//@   ensures[the-registry-is-cleared-once] clearedN(f) == old(clearedN(f)) + 1
+//@   loop 1 invariant[workers-are-told-only-after-the-registry-is-cleared] clearedN(f) == old(clearedN(f)) + 1
+//@   modifies all(clearedN), all(sentN)
